@@ -119,6 +119,10 @@ func (u *Unit) frameWrite(hn string, ref Term, lo, hi *Term, what string) {
 	if strings.HasPrefix(ref.S, "G.nextRef") {
 		return // a frontier value: allocated in this function
 	}
+	if u.eng.newFieldHeaps[hn] {
+		u.note("write to " + hn + ", a field added after the contracts were written: exempt from the frame check, havocked by every contract call")
+		return
+	}
 	// (a nil reference is never written: that is the business of the safe.nil / safe.bounds obligations)
 	parts := []Term{{"(>= " + ref.S + " " + sanitize("G.nextRef") + "!init)", sBool}, {"(= " + ref.S + " 0)", sBool}}
 	for _, e := range u.frameAllowed {
